@@ -253,6 +253,42 @@ Definition get_methods (order : list string) (has_construct_field : bool) : list
 (* before the fix the lists were returned in map order *)
 Definition member_names_maporder (order : list string) : list string := order.
 
+(* ---- the collect-sort-then-use idiom, generically.
+   node/class_abstract_validate.go abstractStaticMethodNames, node/init_class.go InitClass.GetValue,
+   node/html.go generateNormalHtml, node/js_server.go formatObjectValue / formatClassOrObjectValue,
+   node/globals_{get,post,files,server}_variable.go, std/net/http request_*:
+       keys := make([]string, 0, len(m)); for k := range m { if keep(k) { keys = append(keys, k) } }
+       sort.Strings(keys); for _, k := range keys { <body k> }
+   `order` = the order in which Go ranges over the map; `keep` = the filter applied while collecting
+   (constant true at most sites; "is an *AbstractMethod" for the abstract listing); `body` folds
+   whatever the site does per key (print an attribute, evaluate an initialiser, append a name) into
+   an accumulator of any type. *)
+Definition sorted_range {A} (keep : string -> bool) (body : A -> string -> A) (init : A) (order : list string) : A :=
+  fold_left body (ssort (filter keep order)) init.
+
+(* the same loop run straight over the map (what these sites did before their fixes): kept for
+   Examples.v, which shows a body for which two iteration orders give different results *)
+Definition unsorted_range {A} (keep : string -> bool) (body : A -> string -> A) (init : A) (order : list string) : A :=
+  fold_left body (filter keep order) init.
+
+(* node/js_server.go formatClassOrObjectValue after its fix: the caller's order (the object's insertion
+   order) first, restricted to keys of the map and without repeats, then the remaining keys sorted *)
+Fixpoint dedup_in (keys : list string) (seen : list string) (l : list string) : list string :=
+  match l with
+  | [] => []
+  | k :: r => if existsb (String.eqb k) keys && negb (existsb (String.eqb k) seen)
+              then k :: dedup_in keys (k :: seen) r else dedup_in keys seen r
+  end.
+Definition preferred_then_sorted (preferred : list string) (order : list string) : list string :=
+  let first := dedup_in order [] preferred in
+  first ++ ssort (filter (fun k => negb (existsb (String.eqb k) first)) order).
+
+(* node/html.go generateHtml / HtmlTemplateNode.GetValue: pick THE attribute of a given kind
+       for _, value := range h.Attributes { if value is an AttrForValue { forValue = value; continue } ... }
+   the last match in iteration order wins; `is_kind` tells which attribute names carry a value of the kind *)
+Definition pick_last (is_kind : string -> bool) (order : list string) : option string :=
+  fold_left (fun acc k => if is_kind k then Some k else acc) order None.
+
 (* ================================================================== Part 3: process-level state *)
 
 (* Every piece of mutable state a script can reach lives either in the VM it runs on (class /
